@@ -153,7 +153,9 @@ func verifC17Foundation() {
 		nt := NetworkType(verifInt(1, 4))
 		n := verifChoice(3 + 2*verifTier())
 		addr := verifString(n)
-		return &candidateBase{candidateType: ct, networkType: nt, address: addr}
+		// everything else about the candidate is arbitrary and must not matter
+		return &candidateBase{candidateType: ct, networkType: nt, address: addr,
+			tcpType: TCPType(verifInt(0, 3)), port: verifInt(0, 65535), component: verifU16(), priorityOverride: verifU32()}
 	}
 	c1, c2 := mk(), mk()
 	f1, f2 := c1.Foundation(), c2.Foundation()
